@@ -20,6 +20,9 @@ RULE = (
     "image; <id> in published/ only if nothing failed for it and the store is complete, else intact in approved/; check_exists(id, "
     "'index.wtml') (refresh's skip test) only for complete images; a second fault-free publish() completes everything. "
     "evaluations = fault cases executed; distinct = distinct (file set, order, fault point, kind)."
+    " Fault kinds: BaseException, transient OSError, a real SIGINT, os._exit in a forked publisher; 'mid' faults fire inside the store'"
+    's real put_item (shutil.copyfileobj dies after 7 bytes). Dot-files are among the image files. Real refresh_impl runs decide on a t'
+    'hird of the states.'
 )
 ASSUMPTIONS = ["local store; crashes emulated by os._exit in a forked child (no power-loss semantics)"]
 EXHAUSTIVE = {"quick": "all 24 directory orders x all 13 fault points x {exception, crash} for a 4-file image with index.wtml",
